@@ -330,6 +330,9 @@ func (x *Exec) evalUn(env *CEnv, n *CUn) (*CV, error) {
 			return nil, fmt.Errorf("* on non-pointer %v", v.Ty)
 		}
 		loc := x.locOfCV(v, pt.Elem())
+		if env.specHeaps != nil {
+			env.specHeaps[x.heapName(pt.Elem())] = true
+		}
 		return &CV{T: x.load(env.st, loc), Ty: pt.Elem()}, nil
 	}
 	return nil, fmt.Errorf("unary %s", n.Op)
